@@ -46,7 +46,7 @@ func (c *countCtx) Done() <-chan struct{} {
 }
 
 func (c *countCtx) Err() error {
-	if c.firedAt >= 0 {
+	if c.firedAt >= 0 || c.k == 0 { // k == 0: the context is done before the call
 		return c.err
 	}
 	return nil
@@ -141,6 +141,9 @@ func checkCancelFacts(c CancelCase) (v *Violation, f cancelFacts) {
 					at := fmt.Sprintf("%s(%q, %s, silent=%v) with the context done at poll %d of %d (%v)", entryNames[e], c.Exec.Path, c.Exec.Doc, silent, k, n, cerr)
 					if o.Panic != "" {
 						return violf("%s panicked: %s", at, o.Panic), f
+					}
+					if cc.firedAt < 0 && k == 0 {
+						return violf("%s: the context was done before the call, yet the executor never looked at it and returned %s", at, o), f
 					}
 					if cc.firedAt < 0 {
 						// the context never reported done during this call: same outcome as uncancelled
